@@ -20,7 +20,7 @@ LEVEL = "exploration"
 
 RULE = (
     "Hypothesis task programs (pure returns, scripted raises - RetryError / a custom retriable / ValueError / a non-retriable custom error - on chosen "
-    "attempts or always, nested .result calls, parallelize groups; plain and direct_task flavours) x max_retries 0..3 x retry_for subsets; executed in sync "
+    "attempts or always, nested .result calls, parallelize groups, parallelize with common_args and heterogeneous per-call dicts; plain and direct_task flavours) x max_retries 0..3 x retry_for subsets; executed in sync "
     "mode, on Mem + ThreadRunner and on SQLite + ThreadRunner (scheduler actors, round-robin, virtual time); non-trivial = program with a nested call and a "
     "raise, or a group of >= 2; distinct = (program, flavour, max_retries, retry_for)"
 )
